@@ -1261,7 +1261,13 @@ func vnStartClient(n *vnNet, dir string, nodes []*vnNode) (*vnClient, error) {
 	vnShortenTimeouts()
 	if lv := os.Getenv("VN_LOG"); lv != "" {
 		// debugging aid: the client's own log on stdout (VN_LOG=debug|info|trace)
-		lg := btclog.NewBackend(os.Stdout).Logger("NTRN")
+		out := os.Stdout
+		if fn := os.Getenv("VN_LOG_FILE"); fn != "" {
+			if f, err := os.Create(fn + "." + fmt.Sprint(os.Getpid())); err == nil {
+				out = f
+			}
+		}
+		lg := btclog.NewBackend(out).Logger("NTRN")
 		l, _ := btclog.LevelFromString(lv)
 		lg.SetLevel(l)
 		UseLogger(lg)
